@@ -386,7 +386,7 @@ void run_self_once(const char* entry, const std::string& variant, const typename
     std::vector<int> keep = seen;
     std::string after = s.dump();
     std::string tw = xdump(*twin);
-    dump_eq = (after == tw) ? 1 : 0;
+    dump_eq = (after == tw || s.t() == *twin) ? 1 : 0;
     if (!dump_eq) note = "handle: " + after.substr(0, 120) + " // twin: " + tw.substr(0, 120);
     // const handle: the VALUE must be unchanged (the representation may legitimately be minimized lazily)
     const_ok = ((mutates || s.t() == proto) && (!w || w->same())) ? 1 : 0;
@@ -430,7 +430,8 @@ void run_new_once(const char* entry, const std::string& variant, std::function<i
     int dump_eq = 1, usable = 1; std::string note;
     if (r == 0 && h != 0 && twin) {
       std::string a = cdump<typename Dom::CH>(Dom::cdump, h), b = xdump(*twin);
-      dump_eq = a == b; if (!dump_eq) note = "handle: " + a.substr(0, 120) + " // twin: " + b.substr(0, 120);
+      // empty boxes carry unspecified interval bounds in their dump: equal VALUE is what is required
+      dump_eq = (a == b) || (Dom::cxx((typename Dom::CH) h) == *twin); if (!dump_eq) note = "handle: " + a.substr(0, 120) + " // twin: " + b.substr(0, 120);
       usable = Dom::cok(h) > 0;
       ++created; int d = Dom::cdel(h); ++deleted; if (d != 0) usable = 0;
     }
